@@ -288,9 +288,18 @@ class World:
         return -1
 
     # ---- logging ------------------------------------------------------------------------------
-    def on_pass(self, job_name: str, target) -> None:
+    def on_pass(self, job_name: str, target, job_context=None) -> None:
+        # `JobContext.scheduled`: once one target of a request has allocated the job, the request's other tasks must return
+        # without a pass (`if job_context.scheduled: return` precedes the connector call that we log)
+        granted = getattr(self, "_granted_ctx", None)
+        if granted is None:
+            granted = self._granted_ctx = set()
+            self._ctx_refs = []
+        if job_context is not None:
+            self._ctx_refs.append(job_context)      # keep it alive: id() of a collected JobContext could be reused
         self.log.append({"ev": "pass", "job": job_name, "target": self.target_index(target), "alloc": False,
-                         "snap": None, "err": None, "task": asyncio.current_task()})
+                         "snap": None, "err": None, "task": asyncio.current_task(), "ctx": id(job_context),
+                         "after_granted": job_context is not None and id(job_context) in granted})
 
     def on_alloc(self, job_name: str, target) -> None:
         for e in reversed(self.log):
@@ -298,6 +307,8 @@ class World:
                 e["alloc"] = True
                 e["snap"] = self.snapshot()
                 e["real"] = self.real_state()
+                if e.get("ctx") is not None:
+                    self._granted_ctx.add(e["ctx"])
                 return
         self.log.append({"ev": "stray-alloc", "job": job_name})
 
@@ -378,6 +389,7 @@ class World:
                 ev["err_text"] = repr(task.exception())[:300]
         for ev in self.log:
             ev.pop("task", None)
+            ev.pop("ctx", None)
 
     def _target_dep(self, job_name: str):
         a = self.scheduler.job_allocations.get(job_name)
@@ -547,7 +559,7 @@ class _LoggingConnector(FakeConnector):
     async def get_available_locations(self, service=None, _sfv_quiet=False):
         fl = None if _sfv_quiet else _process_target_frame()
         if fl is not None and fl["target"].deployment.name == self.deployment_name:
-            self._world.on_pass(fl["job_context"].job.name, fl["target"])
+            self._world.on_pass(fl["job_context"].job.name, fl["target"], fl["job_context"])
             if self._world.suspend_rng is not None:
                 for _ in range(self._world.suspend_rng.randint(0, 2)):
                     await asyncio.sleep(0)     # a real connector suspends here, holding the scheduler lock
@@ -562,7 +574,7 @@ class _LoggingWrapper(FakeWrapper):
     async def get_available_locations(self, service=None, _sfv_quiet=False):
         fl = None if _sfv_quiet else _process_target_frame()
         if fl is not None and fl["target"].deployment.name == self.deployment_name:
-            self._world.on_pass(fl["job_context"].job.name, fl["target"])
+            self._world.on_pass(fl["job_context"].job.name, fl["target"], fl["job_context"])
         return await super().get_available_locations(service)
 
 
@@ -642,6 +654,9 @@ def compare(world: World, outs: list[str], evs: list[dict]) -> list[tuple[str, s
     for out, ev in zip(outs, evs):
         head, _, dump = out.partition(" | ")
         if ev["ev"] == "pass":
+            if ev.get("after_granted"):
+                diffs.append(("pass after the request was granted", f"job {ev['job']} target {ev['target']}: a task of a request whose job was "
+                              f"already allocated through another target ran the critical section again (JobContext.scheduled ignored)"))
             real_head = "allocated" if ev["alloc"] else ("err" if ev["err"] else "waiting")
             model_head = head.split(" ")[0]
             real_snap = ev["snap"] if ev["alloc"] else prev_snap
